@@ -64,7 +64,7 @@ EXPORTED = {
     "reuse": ("GruleReuse.tla", "MCReuse.cfg", "reuse-traces", "call histories on one instance (3 call kinds x 5 endings, depth 3), invariant FreshAtStart"),
 }
 MODEL = {"quick": ("MCEngine.tla", "MCEngineQuick.cfg"), "thorough": ("MCEngine.tla", "MCEngine.cfg")}
-THOROUGH_FACTOR = 12
+THOROUGH_FACTOR = 24
 SESSION_MODEL = "MCEngineSession.cfg"   # several calls (Execute / Fetch) on one instance
 SESSION_PROPS = ("C08", "C11")
 DEDUCTIVE_PROPS = ("C01", "C02", "C03", "C06", "C08", "C11", "C15")
